@@ -27,3 +27,5 @@ package index
 //@   loop 0 invariant forall k int64 :: 0 <= k && k < start ==> SpecStampAt(r, k) < ts
 //@   loop 0 invariant forall k int64 :: end < k && k < SpecCount(r) ==> SpecStampAt(r, k) > ts
 //@   loop 0 decreases end - start + 1
+
+//@ pure func Between[T types.Numeric](lower T, upper T) Approximation[T]
